@@ -238,10 +238,15 @@ class CFG:
             self._edge(nid, self._route("continue", frames), "n")
             return []
         if isinstance(st, ast.If):
-            t = self._simple(st, preds, frames, copy_of, "test", st.test)
-            a = self._seq(st.body, [(t, "t")], frames, copy_of)
-            b = self._seq(st.orelse, [(t, "f")], frames, copy_of) if st.orelse \
-                else [(t, "f")]
+            # `if not c: A else: B` is built as `if c: B else: A`: the test node holds the
+            # positive condition and the labels swap, so path rules see one form only
+            test, lt, lf = st.test, "t", "f"
+            while isinstance(test, ast.UnaryOp) and isinstance(test.op, ast.Not):
+                test, lt, lf = test.operand, lf, lt
+            t = self._simple(st, preds, frames, copy_of, "test", test)
+            a = self._seq(st.body, [(t, lt)], frames, copy_of)
+            b = self._seq(st.orelse, [(t, lf)], frames, copy_of) if st.orelse \
+                else [(t, lf)]
             return a + b
         if isinstance(st, ast.While):
             t = self._simple(st, preds, frames, copy_of, "test", st.test)
